@@ -771,7 +771,7 @@ def cases(tier, seed):
                 if dist == "zerorow" and X == 1 or dist == "zerocol" and Y == 1:
                     continue
                 ic = "xor/%s/%s" % (shape_class(X, Y), dist)
-                nseeds = 3 if thorough else 1
+                nseeds = 6 if thorough else 1
                 for s in range(nseeds):
                     base = dict(shape=[X, Y], dist=dist, seed=seed + 11 * s + 3 * X + Y)
                     for cl in value_clauses:
@@ -806,7 +806,7 @@ def cases(tier, seed):
             add("xor.qv_le", dict(name=name, reps=r), "xor/reps=%d" % r)
     # ---- larger shapes, seeded
     big = [[2, 5], [5, 2], [4, 4], [1, 6], [3, 5], [5, 5], [6, 4]]
-    nrep = 4 if thorough else 1
+    nrep = 8 if thorough else 1
     for i, sh in enumerate(big):
         for r in range(nrep):
             for dist in ("random", "sparse"):
@@ -821,7 +821,7 @@ def cases(tier, seed):
     import random
 
     rnd = random.Random(seed)
-    for i in range(200 if thorough else 24):
+    for i in range(800 if thorough else 40):
         X, Y = rnd.randint(1, 4), rnd.randint(1, 4)
         dist = rnd.choice(["random", "biased", "sparse", "zerorow", "zerocol"])
         base = dict(shape=[X, Y], dist=dist, seed=seed + 1000 + i)
@@ -845,7 +845,7 @@ def cases(tier, seed):
             add("bell.marg_le", dict(par), "bell/named")
     for al in (0.25, 1.0, 1.5):
         add("bell.closed", dict(name="tilted", alpha=al), "bell/named")
-    nb = 40 if thorough else 8
+    nb = 150 if thorough else 12
     for i in range(nb):
         for av, bv in (("pm", "pm"), ("mp", "pm")):
             par = dict(seed=seed + 300 + i, marg=False, aval=av, bval=bv)
